@@ -66,7 +66,7 @@ def cases(tier, cfg, seed):
                 if tier == 'quick' and T == 'float' and st not in ('SimpleInv',): continue
                 out.append(Inv(T, n, st))
             out.append(Inv(T, n, 'SimpleInv', 'lazy')); out.append(Inv(T, n, 'SimpleInv', 'default'))
-        for n in ((5, 6) if tier == 'quick' else (5, 6, 7, 8)):
+        for n in ((5,) if tier == 'quick' else (5, 6, 7, 8)):
             for st in ('SimpleLU', 'BlockLU'):
                 if T == 'float' and tier == 'quick': continue
                 out.append(Inv(T, n, st))
